@@ -22,6 +22,27 @@ CHECKS = {
         design_ref='DESIGN.md section 8 (C03)'),
 }
 
+SEM_TECH = ('TLA+ spec: valid configurations defined declaratively (FMSem.tla) and evaluated by TLC over all 2^n selections; '
+            'TLC-enumerated models replayed into the operation; recorded Exec events judged by TLC (trace validation)')
+CHECKS.update({
+    'C13': dict(technique=SEM_TECH, design_ref='DESIGN.md section 8 (C13)',
+        text='All tree shapes up to N features with every relation kind (incl. mutex, [a..b], dead [0..0], several relations '
+             'per parent) and all depth-1 constraints are enumerated by TLC, executed through FMEstimatedConfigurationsNumber, '
+             'and the returned number is compared by TLC with Cardinality(Configs(m)) computed by brute force: equal without '
+             'constraints, not smaller with. Lemma L3 (closed form = brute force) guards the oracle.'),
+    'C14': dict(technique=SEM_TECH, design_ref='DESIGN.md section 8 (C14)',
+        text='Same enumeration; the returned list must be duplicate-free, contain the root, be a subset of the features present in '
+             'every member of Configs(m), and equal that set when there are no constraints (all by TLC brute force).'),
+    'C15': dict(technique=SEM_TECH, design_ref='DESIGN.md section 8 (C15)',
+        text='Same enumeration; the returned sets must partition the feature names, members of one set must be co-selected in every '
+             'member of Configs(m), and every mandatory child must share a set with its parent.'),
+    'C16': dict(technique='TLA+ definitions of leaves/depth/branching factor/ancestors/variation points (FMBase, FMOps) evaluated by TLC on '
+                          'TLC-enumerated models; recorded Exec events judged by trace validation',
+        design_ref='DESIGN.md section 8 (C16)',
+        text='Every tree up to N features including the root-only model; the six operations (ancestors once per feature) must return a value '
+             '(an exception is a failed .total clause) equal to the definition computed by TLC on the projected tree.'),
+})
+
 REASON_TODO = 'check not built yet (build in progress; see DESIGN.md section 12)'
 
 
